@@ -8,6 +8,7 @@ from ..scen import data_input, time_input
 from ..vec import Vec
 
 SEV = {1: 0, 3: 1, 4: 2}
+NAN = float('nan')
 
 
 def relation(loose, strict):
@@ -24,7 +25,7 @@ def relation(loose, strict):
 
 
 def fr(d):
-    return {k: (Fr(v) if isinstance(v, int) and not isinstance(v, bool) else (tuple(None if a is None else Fr(a) for a in v) if isinstance(v, tuple) else v)) for k, v in d.items()}
+    return {k: (Fr(v) if isinstance(v, int) and not isinstance(v, bool) else (tuple(a if a is None or a != a else Fr(a) for a in v) if isinstance(v, tuple) else v)) for k, v in d.items()}
 
 
 def pairs():
@@ -37,6 +38,10 @@ def pairs():
         (dict(fail_span=(0, 6), suspect_span=(1, 5)), dict(fail_span=(1, 5), suspect_span=(2, 4))),
         (dict(fail_span=(0, 6), suspect_span=(1, 5)), dict(fail_span=(1, 5), suspect_span=(1, 5))),
         (dict(fail_span=(0, 6), suspect_span=(2, 4)), dict(fail_span=(2, 4), suspect_span=(3, 3))),
+        # a NaN bound leaves that side open (no comparison with NaN holds): closing it is a stricter span
+        (dict(fail_span=(NAN, 6)), dict(fail_span=(0, 6))),
+        (dict(fail_span=(0, NAN)), dict(fail_span=(0, 6))),
+        (dict(fail_span=(0, 6), suspect_span=(NAN, 4)), dict(fail_span=(0, 6), suspect_span=(2, 4))),
     ], [1, 2], 1)
     yield ('valid_range_test', lambda p: [data_input('inp', p, carrier='ndarray')], [
         (dict(valid_span=(1, 5)), dict(valid_span=(2, 4))),
@@ -63,10 +68,12 @@ def pairs():
         (dict(suspect_threshold=20, fail_threshold=30, tolerance=1), dict(suspect_threshold=20, fail_threshold=20, tolerance=1)),
         (dict(suspect_threshold=20, fail_threshold=30, tolerance=1), dict(suspect_threshold=20, fail_threshold=30, tolerance=2)),
         (dict(suspect_threshold=25, fail_threshold=35, tolerance=1), dict(suspect_threshold=15, fail_threshold=25, tolerance=2)),
+        (dict(suspect_threshold=20, fail_threshold=30, tolerance=1), dict(suspect_threshold=20, fail_threshold=10, tolerance=1)),
     ], [3, 4, 5], 1)
     yield ('attenuated_signal_test', lambda p: [data_input('inp', p), time_input('tinp', t10(len(p)))], [
         (dict(suspect_threshold=2, fail_threshold=1), dict(suspect_threshold=3, fail_threshold=1)),
         (dict(suspect_threshold=2, fail_threshold=1), dict(suspect_threshold=2, fail_threshold=2)),
+        (dict(suspect_threshold=2, fail_threshold=1), dict(suspect_threshold=2, fail_threshold=3)),
         (dict(suspect_threshold=2, fail_threshold=1, check_type='range', test_period=20), dict(suspect_threshold=3, fail_threshold=2, check_type='range', test_period=20)),
         (dict(suspect_threshold=2, fail_threshold=1, test_period=30, min_obs=2), dict(suspect_threshold=3, fail_threshold=2, test_period=30, min_obs=2)),
     ], [2, 3, 4], 1)
@@ -74,6 +81,7 @@ def pairs():
         (dict(suspect_threshold=-2, fail_threshold=-4), dict(suspect_threshold=-1, fail_threshold=-3)),
         (dict(fail_threshold=-3), dict(suspect_threshold=-1, fail_threshold=-3)),
         (dict(suspect_threshold=-1), dict(suspect_threshold=-1, fail_threshold=-1)),
+        (dict(suspect_threshold=-2, fail_threshold=-4), dict(suspect_threshold=-2, fail_threshold=-1)),
     ], [2, 3], 1)
     yield ('location_test', lambda p: [data_input('lon', p[0]), data_input('lat', p[1])], [
         (dict(bbox=(-10, -20, 10, 20)), dict(bbox=(-5, -10, 5, 10))),
@@ -85,6 +93,9 @@ def pairs():
         (dict(suspect_threshold=2, fail_threshold=4), dict(suspect_threshold=1, fail_threshold=3)),
         (dict(suspect_threshold=2, fail_threshold=4), dict(suspect_threshold=2, fail_threshold=2)),
         (dict(suspect_threshold=1, fail_threshold=4), dict(suspect_threshold=0, fail_threshold=4)),
+        # a fail threshold tightened below the suspect threshold is still "not larger"
+        (dict(suspect_threshold=2, fail_threshold=4), dict(suspect_threshold=2, fail_threshold=1)),
+        (dict(suspect_threshold=2, fail_threshold=4), dict(suspect_threshold=0, fail_threshold=0)),
     ], [2, 3], 2)
 
 
